@@ -1,6 +1,7 @@
 import RotondaModel.Generated.BmpDispatch
 import RotondaModel.Generated.RibUpdate
 import RotondaModel.Generated.CodecAfi
+import RotondaModel.Generated.MrtDispatch
 /-! Line driver of the extraction ties (`checks/Xextract.json`). One case per input line:
 `universe <area>` → the names of the enum variants the generated table of that area ranges over
 (the engine `xextract` prints the same list from an exhaustive Rust `match` over the real type). -/
@@ -11,6 +12,7 @@ def universeOf (area : String) : String :=
   | "bmpdispatch" => " ".intercalate BmpDispatch.kindNames
   | "ribupdate" => " ".intercalate RibUpdate.kindNames
   | "codecafi" => " ".intercalate CodecAfi.kindNames
+  | "mrtdispatch" => " ".intercalate MrtDispatch.kindNames
   | _ => "unknown-area"
 
 def answer (line : String) : String :=
